@@ -1,4 +1,6 @@
 """C18 adapters, part 2: dynamics, time correlation, coarse graining."""
+import numpy as np
+
 from worlds.c18_base import (Adapter, Ctor, Method, comp, conds, maybe_default, method_op, nlfiles, npy_name,
                              outpath, pick_base, ref)
 
@@ -114,7 +116,10 @@ def _gen_cage_relative(w, rng):
     cn = sorted(n for n, e in w.pool.items() if e.kind == "arr" and e.tag.get("role") == "cnlist"
                 and e.value.shape[1] >= 2 and (e.value[:, 0] >= 1).all() and e.tag["snaps"] in w.pool)
     if not cn:
-        return None
+        # no neighbour table read yet: the analyst reads one first
+        from worlds.c18_base import REG
+        op = REG["read_neighbors"].gen(w, rng)
+        return None if op is None else dict(op, **{"as": "read_neighbors"})
     n = rng.choice(cn)
     b = w.pool[n].tag["snaps"]
     c = conds(w, b, ("TNd",), ("float",))
@@ -124,7 +129,37 @@ def _gen_cage_relative(w, rng):
     return {"args": {"RII": ref(v, rng.randrange(len(w.pool[v].value))), "cnlist": ref(n)}}
 
 
-Adapter("cage_relative", "dynamics", "dynamic.dynamics.cage_relative", gen=_gen_cage_relative, faultable=False)
+Adapter("cage_relative", "dynamics", "dynamic.dynamics.cage_relative", gen=_gen_cage_relative, faultable=False, weight=2.5)
+
+
+def _gen_pad_cnlist(w, rng):
+    cn = sorted(n for n, e in w.pool.items() if e.kind == "arr" and e.tag.get("role") == "cnlist" and not e.tag.get("padded")
+                and e.value.ndim == 2 and e.value.shape[1] >= 2 and e.tag["snaps"] in w.pool
+                and (e.value[:, 0] < e.value.shape[1] - 1).any())
+    if not cn:
+        from worlds.c18_base import REG
+        op = REG["read_neighbors"].gen(w, rng)
+        return None if op is None else dict(op, **{"as": "read_neighbors"})
+    return {"args": {"cnlist": ref(rng.choice(cn)), "fill": rng.choice([-1, -1, "N", 2 ** 31 - 1])}}
+
+
+def _call_pad_cnlist(w, op, kw):
+    # the analyst's own neighbour table: the lists the library read, the unused slots holding the
+    # sentinel other tools use (-1 as scipy / ASE do, the particle number, INT_MAX) instead of 0
+    a = np.array(kw["cnlist"], copy=True)
+    fill = a.shape[0] if kw["fill"] == "N" else kw["fill"]
+    cols = np.arange(1, a.shape[1])[None, :]
+    a[:, 1:][cols > a[:, :1]] = fill
+    return a
+
+
+def _exp_pad_cnlist(w, op, res):
+    src = w.pool[op["args"]["cnlist"]["$"]].tag
+    return [("", "arr", res, {"role": "cnlist", "snaps": src["snaps"], "frame": src.get("frame"), "result": True, "padded": True})]
+
+
+Adapter("client.pad_cnlist", "dynamics", "dynamic.dynamics.cage_relative#client-table", covers=[], gen=_gen_pad_cnlist,
+        call=_call_pad_cnlist, exports=_exp_pad_cnlist, faultable=False, weight=1.5)
 
 
 # --------------------------------------------------------------------- time correlation ----
